@@ -315,7 +315,13 @@ body(void)
 	if (fork_mode && !leak_registered) { atexit(leak_report); leak_registered = 1; }
 	fk_reset(); fk_pre_poll_hook = prepoll; fk_send_deviated = 0;
 	active = callbacks = cancelled = cb_null = steps = 0; hcookie = NULL;
-	p0 = (size_t)mc_pick((int)((ncases + 249) / 250), "case-group");
+	/* the case index as up to three picks of arity <= 250 (the engine's limit per choice point is 255) */
+	{
+		size_t ngroups = (ncases + 249) / 250, g, hi = 0;
+		if (ngroups > 250) { hi = (size_t)mc_pick((int)((ngroups + 249) / 250), "case-supergroup"); g = hi * 250 + (size_t)mc_pick((int)(hi == (ngroups - 1) / 250 ? ngroups - hi * 250 : 250), "case-group"); }
+		else g = (size_t)mc_pick((int)ngroups, "case-group");
+		p0 = g;
+	}
 	p1 = (size_t)mc_pick((int)(p0 == (ncases - 1) / 250 ? ncases - p0 * 250 : 250), "case");
 	case_idx = p0 * 250 + p1; C = &cases[case_idx];
 	if (fork_mode && C->minimal) return;	/* the forked pass covers the structured attacks and base responses */
@@ -464,7 +470,15 @@ gen_hostile(int thorough)
 		if (b.resplen > 600) continue;
 		if (!thorough && (i % 3) != 0) continue;
 		/* truncations also for the longer responses (interim responses with header lines followed by a cut-off final block) */
-		for (q = 0; q <= b.resplen; q++) hostile(b.resp, q, FK_END_EOF, b.limit, b.method, 32, "truncate case %zu at %zu", i, q);
+		for (q = 0; q <= b.resplen; q++) {
+			if (b.resplen > 200 && !thorough) {
+				/* long responses in the quick tier: every offset near the end of a header block, every 16th elsewhere */
+				size_t e; int near = 0;
+				for (e = 3; e < b.resplen; e++) if (memcmp(b.resp + e - 3, "\r\n\r\n", 4) == 0 && q + 8 >= e && q <= e + 12) near = 1;
+				if (!near && (q % 16) != 0 && q != b.resplen) continue;
+			}
+			hostile(b.resp, q, FK_END_EOF, b.limit, b.method, 32, "truncate case %zu at %zu", i, q);
+		}
 		if (b.resplen > 200) continue;
 		for (q = 0; q < b.resplen; q++) {
 			uint8_t t[260]; int r;
